@@ -32,9 +32,7 @@ RULE = ('three workloads. (1) cost group, exhaustive: from each of 18 concrete f
         'property of that model must read as before (documented groups aside), and both must survive print + re-parse of the file. '
         'One evaluation = one getter-after-setter comparison; non-trivial = the value differs from the previous one, or the record '
         'changed / a rejection occurred; distinct = hash(initial form, assignment path) resp. hash(text, path, property, value).')
-ASSUMPTIONS = ['a negative value is read back through a unary minus, which rounds to the decimal context (28 digits): values with more '
-               'digits are assigned as positive numbers only',
-               'values are compared as Decimal/date/str/bool, raw nodes by structural digest',
+ASSUMPTIONS = ['values are compared as Decimal/date/str/bool, raw nodes by structural digest',
                'in the generic workload the re-parsed model is located as the k-th model of its class in pre-order']
 
 VALS = {'number_per': [None, D(7)], 'number_total': [None, D(9)], 'currency': [None, 'CAD'], 'date': [None, datetime.date(2001, 2, 3)],
@@ -289,7 +287,7 @@ def generic_case(col, r, idx):
             if op is not None and idx % 8 == 0 and trial == 0 and isinstance(op.assigned, D):
                 # every 8th document: a positive value with more digits than the decimal context keeps (no arithmetic is involved
                 # in storing and reading it)
-                lv = D(f'{r.randint(10 ** 28, 10 ** r.randint(29, 40))}E-{r.randint(0, 30)}')
+                lv = D(f'{r.choice(["", "-"])}{r.randint(10 ** 28, 10 ** r.randint(29, 40))}E-{r.randint(0, 30)}')
                 op = ops.Op(op.kind, f'{path}.{a} = {lv!r}', m, path, op.slot, lambda: setattr(m, a, lv), attr=a)
                 op.assigned = lv
         except (decimal.DecimalException, ZeroDivisionError):
